@@ -65,6 +65,11 @@ pub fn tokenize_inline_content(content: &str) -> Result<Vec<Node>, CompilerError
                     .unwrap_or(trimmed_after.len())
             };
             let divert_str = &trimmed_after[..call_len];
+            if divert_str.is_empty() {
+                return Err(CompilerError::invalid_source(
+                    "expected thread target after '<-'".to_owned(),
+                ));
+            }
             let divert = parse_divert(divert_str)?;
             nodes.push(Node::ThreadDivert(divert));
             // Advance the iterator past the consumed "<-" + leading space + call text
